@@ -148,8 +148,21 @@ func (p *Prop) Run(t *simhook.Tape, opt simkit.RunOpt) *simkit.RunResult {
 		}
 	} else {
 		n := g.Range(2, 12)
+		// swarm: in one run of six every call comes from the same catalogue entry
+		// (with different arguments), so that all tasks are inside the same library
+		// code at once - where per-function shared state lives
+		focus := -1
+		if g.Chance(1, 6) {
+			focus = g.Intn(len(p.cat))
+			if opt.Counting {
+				p.St.Probes.Inc("focused_runs_single_entry")
+			}
+		}
 		for i := 0; i < n; i++ {
 			e := g.Intn(len(p.cat))
+			if focus >= 0 {
+				e = focus
+			}
 			cl := p.cat[e].gen(g, c.pl)
 			cl.name = p.cat[e].name
 			pln.calls = append(pln.calls, cl)
@@ -196,6 +209,11 @@ func (p *Prop) Run(t *simhook.Tape, opt simkit.RunOpt) *simkit.RunResult {
 		default:
 			pln.policy = simhook.Policy{Kind: simhook.PSeq}
 		}
+	}
+	if simhook.SyncSites > 0 && pln.policy.Kind != simhook.PSeq && g.Chance(1, 2) {
+		// the (changed) library uses sync primitives: in half of the runs every
+		// synchronisation operation is a scheduling decision
+		pln.policy.SyncBias = true
 	}
 	if c.pl.huge != nil && pln.policy.Gap > 0 && pln.policy.Gap < 2000 {
 		// the invariant re-reads the whole pool: with a 16k-element slice in it a
@@ -290,6 +308,7 @@ func (p *Prop) Run(t *simhook.Tape, opt simkit.RunOpt) *simkit.RunResult {
 			p.St.Probes.Add("switches_inside_library_calls", int64(conc.res.MidSwitches))
 			p.St.Probes.Add("lock_spins", int64(conc.res.LockSpins))
 			p.St.Probes.Add("atomic_sections", int64(conc.res.AtomicSecs))
+			p.St.Probes.Add("decisions_at_sync_operations", int64(conc.res.SyncYields))
 		}
 		// O3: same answers as the sequential reference
 		if c.sh.getViol() == nil && abort == nil && c.ref != nil {
